@@ -20,6 +20,11 @@ Decided clause:
        local bounce buffer (the partial-block buffers `tmp` / `partialblock` / `block`) is read
        again before the function returns - keystream stored into a local that is never copied
        out cannot reach the caller's buffer.
+  R3.6 batches are independent: in the multi-block loops of the SIMD backends no value that was produced
+       by the rounds of one batch is carried into the next batch (a loop-carried value at the header of a
+       batch loop may only be recomputed from itself, constants and other carried values: byte count,
+       pointers, counters) -
+       each batch starts from key, nonce and counter alone.
   R3.5 the byte-wise 64-bit block counters of the portable Salsa20 / Salsa20/12 / Salsa20/8 code carry
        continuously: the loop-carried carry is recomputed from its previous value.
   R3.4 (E12 known-bits, contradiction rule) no carry / shifted value in the stream units is identically
@@ -139,6 +144,7 @@ def run(ctx, chk):
     bounce_rule(prog, chk)
     # R3.4: no identically-zero carry in the counter arithmetic of the stream units (E12; byte-wise counters of the
     # portable Salsa20 code: u += in[i]; in[i] = u; u >>= 8)
+    batch_rule(prog, chk)
     from .. import knownbits
     knownbits.dead_carry_rule(prog, chk, "R3.4", ("crypto_stream/",), floor=5)
     # R3.5: the byte-wise block counters of the portable Salsa20 family carry continuously (u += in[i]; in[i] = u; u >>= 8)
@@ -342,3 +348,65 @@ def bounce_rule(prog, chk):
                        "reaches the output" % fn.loc(w.iid), path=None if ok else p, key="R3.3 %s %s" % (name, usub))
     chk.floor("R3.3", "stream backends with a local bounce buffer", nfn, 4)
     chk.floor("R3.3", "(path, bounce buffer) pairs with a data write", n, 6)
+
+
+def batch_rule(prog, chk):
+    """R3.6: no rounds output is carried from one batch of blocks into the next"""
+    nh = 0
+    for name, _setup, usub in COUNTER_BACKENDS:
+        fns = [f for f in prog.functions() if f.name == name and usub in f.unit and not f.decl]
+        if not fns:
+            continue
+        fn = fns[0]
+        blocks, insts = fn.blocks, fn.insts
+        headers = [b for b, blk in enumerate(blocks) if blk.get("loophdr")]
+        # outer headers: some deeper loop header is dominated by them
+        def dominated_by(b, h):
+            seen = 0
+            while b != -1 and seen < len(blocks):
+                if b == h:
+                    return True
+                b = blocks[b].get("idom", -1)
+                seen += 1
+            return False
+        for h in headers:
+            d = blocks[h].get("loopdepth", 0)
+            inner = [x for x in headers if x != h and blocks[x].get("loopdepth", 0) > d and dominated_by(x, h)]
+            if not inner:
+                continue
+            nh += 1
+            inner_blocks = {b for b, blk in enumerate(blocks) if blk.get("loopdepth", 0) > d and dominated_by(b, h)}
+            for i in blocks[h]["insts"]:
+                ins = insts[i]
+                if ins["op"] != "phi":
+                    break
+                for v, pb in ins["inc"]:
+                    if v[0] != "v" or not dominated_by(pb, h):
+                        continue            # the value entering from outside the loop
+                    # backward slice of the value carried around the batch loop
+                    seen, stack, hit = set(), [v[1]], None
+                    while stack and hit is None:
+                        x = stack.pop()
+                        if x in seen or x == i:
+                            continue
+                        seen.add(x)
+                        xi = insts[x]
+                        if xi["b"] in inner_blocks:
+                            hit = x
+                            break
+                        if xi["op"] in ("load", "call", "alloca"):
+                            continue
+                        for o in xi.get("ops", ()):
+                            if o[0] == "v":
+                                stack.append(o[1])
+                        for o, _b in xi.get("inc", ()):
+                            if o[0] == "v":
+                                stack.append(o[1])
+                    ok = hit is None
+                    chk.ob("R3.6", fn, "no rounds output is carried from one batch of blocks into the next", ok, loc=fn.loc(blocks[h]["insts"][-1]),
+                           detail="" if ok else "%%%s is loop-carried around the batch loop and its next value comes out of the "
+                           "round loop (%s): the following batch does not start from key, nonce and counter"
+                           % (ins.get("name", i), fn.loc(hit)), key="R3.6 %s %s" % (name, usub))
+            chk.ob("R3.6", fn, "batch loop at %s scanned for carried cipher state" % fn.loc(blocks[h]["insts"][-1]), True,
+                   key="R3.6 %s %s scan-%d" % (name, usub, h))
+    chk.floor("R3.6", "multi-block batch loops in the stream backends", nh, 5)
